@@ -114,6 +114,16 @@ claim("C05",
       "operators, including the three spellings of 'no parameters' at four call sites.",
       TRUST + "member order is read from the JSON text; the method type decoded alone is the pass-through reference",
       "TLA+ model checking (TLC) of envelope laws + TLC validation of projected encode/decode cases", "4/C05")
+claim("C20",
+      "Notified.tla models the one-slot broadcast with subscriber positions, cloned State handles and the one-shot "
+      "channel; TLC checks the safety invariants for all interleavings in scope and the liveness property "
+      "EventuallyLatest under weak fairness (a 'lag ends the stream' mutant violates them). TLC-simulated and seeded "
+      "random schedules are executed in lock-step against zlink_tokio::notified and zlink_smol::notified with "
+      "hand-polled streams; TLC validates every step against NotifiedTrace, which also demands that both "
+      "implementations report the same thing.",
+      TRUST + "values are identified by the number of the set that produced them",
+      "TLA+ model checking (TLC, incl. a liveness property) + TLC trace validation of lock-step executions of both crates",
+      "4/C20")
 
 
 def main():
